@@ -606,6 +606,7 @@ func (nz *normalizer) inlineStmts(h *helper, p *packages.Package, f *ast.File, c
 // `if err != nil { return … }`: the helper's own error returns can then leave the caller directly (see fuse).
 type propagation struct {
 	lhs []string   // names on the left of the call statement ("_" allowed)
+	pre []ast.Stmt // simple statements the caller runs before that return (counters, logging)
 	ret []ast.Expr // results of the caller's return
 	// tail: the call statement is `return helper(…)` and the helper's result types are identical to the caller's, so
 	// each `return e…` of the helper is a `return e…` of the caller (after the helper's deferred calls)
@@ -662,6 +663,20 @@ func nonNilErrorReturns(h *helper) []bool {
 			return false
 		case *ast.ReturnStmt:
 			nn := guarded[x]
+			if len(x.Results) > 0 {
+				// errors.New(…) / fmt.Errorf(…) never return nil
+				if call, ok := x.Results[len(x.Results)-1].(*ast.CallExpr); ok {
+					if sel, ok := call.Fun.(*ast.SelectorExpr); ok {
+						if pk, ok := sel.X.(*ast.Ident); ok && ((pk.Name == "errors" && sel.Sel.Name == "New") || (pk.Name == "fmt" && sel.Sel.Name == "Errorf")) {
+							if info != nil {
+								if _, isPkg := info.Uses[pk].(*types.PkgName); isPkg {
+									nn = true
+								}
+							}
+						}
+					}
+				}
+			}
 			if len(x.Results) > 0 && info != nil {
 				if tv, ok := info.Types[x.Results[len(x.Results)-1]]; ok && tv.Type != nil && !tv.IsNil() {
 					if _, isIface := tv.Type.Underlying().(*types.Interface); !isIface {
@@ -812,12 +827,17 @@ func (nz *normalizer) inlineStmtsP(h *helper, p *packages.Package, f *ast.File, 
 							rets = append(rets, substIdents(copyOf(r), prop.lhs, results))
 						}
 						ret := &ast.ReturnStmt{Results: rets}
+						var fused []ast.Stmt
+						for _, st := range prop.pre {
+							fused = append(fused, substStmt(st, prop.lhs, results))
+						}
+						fused = append(fused, ret)
 						if retIdx-1 < len(nonNil) && nonNil[retIdx-1] {
-							repl = append(repl, ret)
+							repl = append(repl, fused...)
 							direct = true
 						} else {
 								repl = append(repl, &ast.IfStmt{Cond: &ast.BinaryExpr{X: ast.NewIdent(results[len(results)-1]), Op: token.NEQ, Y: ast.NewIdent("nil")},
-							Body: &ast.BlockStmt{List: []ast.Stmt{ret}}})
+							Body: &ast.BlockStmt{List: fused}})
 						}
 					}
 				}
@@ -915,12 +935,29 @@ func (nz *normalizer) replaceStmt(p *packages.Package, f *ast.File, s ast.Stmt) 
 // fusing is safe (see fuse conditions in the comment of inlineStmtsP), describe it.
 func (nz *normalizer) propagationFor(p *packages.Package, fd *ast.FuncDecl, s ast.Stmt, check *ast.IfStmt) *propagation {
 	as, ok := s.(*ast.AssignStmt)
-	if !ok || check == nil || check.Else != nil || len(check.Body.List) != 1 || len(as.Lhs) == 0 {
+	if !ok || check == nil || check.Else != nil || len(check.Body.List) == 0 || len(check.Body.List) > 6 || len(as.Lhs) == 0 {
 		return nil
 	}
-	ret, ok := check.Body.List[0].(*ast.ReturnStmt)
+	ret, ok := check.Body.List[len(check.Body.List)-1].(*ast.ReturnStmt)
 	if !ok {
 		return nil
+	}
+	// statements before the return: straight-line only (they are duplicated at each error return of the helper)
+	var pre []ast.Stmt
+	for _, st := range check.Body.List[:len(check.Body.List)-1] {
+		switch x := st.(type) {
+		case *ast.ExprStmt:
+			pre = append(pre, x)
+		case *ast.AssignStmt:
+			if x.Tok == token.DEFINE {
+				return nil
+			}
+			pre = append(pre, x)
+		case *ast.IncDecStmt:
+			pre = append(pre, x)
+		default:
+			return nil
+		}
 	}
 	be, ok := check.Cond.(*ast.BinaryExpr)
 	if !ok || be.Op != token.NEQ {
@@ -942,7 +979,7 @@ func (nz *normalizer) propagationFor(p *packages.Package, fd *ast.FuncDecl, s as
 	if lhs[len(lhs)-1] != eid.Name || eid.Name == "_" {
 		return nil
 	}
-	call, h, _ := nz.stmtCall(p, s)
+	call, h, recvExpr := nz.stmtCall(p, s)
 	if call == nil || h == nil || h.sig.Results().Len() != len(lhs) {
 		return nil
 	}
@@ -983,6 +1020,43 @@ func (nz *normalizer) propagationFor(p *packages.Package, fd *ast.FuncDecl, s as
 	for _, n := range names {
 		declared[n] = true
 	}
+	// a parameter bound to the caller's variable of the same name (`t.putAll(msgs)` inside a method of t) means the same
+	// thing on both sides, provided the helper never assigns it
+	{
+		hargs := call.Args
+		if recvExpr != nil {
+			hargs = append([]ast.Expr{recvExpr}, hargs...)
+		}
+		assigned := map[string]bool{}
+		ast.Inspect(h.body(), func(n ast.Node) bool {
+			switch x := n.(type) {
+			case *ast.AssignStmt:
+				for _, l := range x.Lhs {
+					if id, ok := l.(*ast.Ident); ok {
+						assigned[id.Name] = true
+					}
+				}
+			case *ast.IncDecStmt:
+				if id, ok := x.X.(*ast.Ident); ok {
+					assigned[id.Name] = true
+				}
+			case *ast.UnaryExpr:
+				if x.Op == token.AND {
+					if id, ok := x.X.(*ast.Ident); ok {
+						assigned[id.Name] = true
+					}
+				}
+			}
+			return true
+		})
+		if len(hargs) == len(names) {
+			for i, n := range names {
+				if id, ok := hargs[i].(*ast.Ident); ok && id.Name == n && !assigned[n] {
+					delete(declared, n)
+				}
+			}
+		}
+	}
 	for i := 0; i < h.sig.Results().Len(); i++ {
 		declared[h.sig.Results().At(i).Name()] = true
 	}
@@ -1018,7 +1092,14 @@ func (nz *normalizer) propagationFor(p *packages.Package, fd *ast.FuncDecl, s as
 		return true
 	})
 	clean := true
+	var scan []ast.Node
 	for _, r := range ret.Results {
+		scan = append(scan, r)
+	}
+	for _, st := range pre {
+		scan = append(scan, st)
+	}
+	for _, r := range scan {
 		ast.Inspect(r, func(n ast.Node) bool {
 			switch x := n.(type) {
 			case *ast.FuncLit:
@@ -1058,7 +1139,7 @@ func (nz *normalizer) propagationFor(p *packages.Package, fd *ast.FuncDecl, s as
 	if !clean {
 		return nil
 	}
-	return &propagation{lhs: lhs, ret: ret.Results}
+	return &propagation{lhs: lhs, pre: pre, ret: ret.Results}
 }
 
 // sameResults: identical result type lists (so that a value returned by the helper is converted exactly as if the caller
@@ -1073,6 +1154,26 @@ func sameResults(a, b *types.Signature) bool {
 		}
 	}
 	return true
+}
+
+// substStmt copies a simple statement with identifiers substituted (see substIdents).
+func substStmt(st ast.Stmt, from, to []string) ast.Stmt {
+	switch x := st.(type) {
+	case *ast.ExprStmt:
+		return &ast.ExprStmt{X: substIdents(copyOf(x.X), from, to)}
+	case *ast.AssignStmt:
+		out := &ast.AssignStmt{Tok: x.Tok}
+		for _, l := range x.Lhs {
+			out.Lhs = append(out.Lhs, substIdents(copyOf(l), from, to))
+		}
+		for _, r := range x.Rhs {
+			out.Rhs = append(out.Rhs, substIdents(copyOf(r), from, to))
+		}
+		return out
+	case *ast.IncDecStmt:
+		return &ast.IncDecStmt{X: substIdents(copyOf(x.X), from, to), Tok: x.Tok}
+	}
+	return st
 }
 
 // substIdents replaces identifiers named from[i] by to[i] in e (selector field names excepted).
